@@ -164,8 +164,15 @@ impl<'a, 'tcx> Cx<'a, 'tcx> {
             // code may call their trait impls (Iterator::next, Display::fmt, ...)
             let mut mentions: Vec<String> = Vec::new();
             for a in args.iter() {
-                for inner in a.walk() {
+                let mut walker = a.walk();
+                while let Some(inner) = walker.next() {
                     if let Some(t) = inner.as_type() {
+                        // a closure handed to foreign generic code can only be *called* by it: the types it captures are
+                        // private to the closure body (whose own calls are edges of the closure)
+                        if matches!(t.kind(), ty::Closure(..) | ty::CoroutineClosure(..)) {
+                            walker.skip_current_subtree();
+                            continue;
+                        }
                         if let ty::Adt(def, _) = t.kind() {
                             let cn = tcx.crate_name(def.did().krate).to_string();
                             if wanted_crate(&cn) {
